@@ -1644,7 +1644,7 @@ func PerspectiveOriginHandler(value string) bool {
 	splitVals := strings.Split(value, " ")
 	xValues := []string{"left", "center", "right"}
 	yValues := []string{"top", "center", "bottom"}
-	if len(splitVals) > 1 {
+	if len(splitVals) == 2 {
 		if !in([]string{splitVals[0]}, xValues) && !LengthHandler(splitVals[0]) {
 			return false
 		}
@@ -1869,7 +1869,7 @@ func TransformOriginHandler(value string) bool {
 	splitVals := strings.Split(value, " ")
 	xValues := []string{"left", "center", "right"}
 	yValues := []string{"top", "center", "bottom"}
-	if len(splitVals) > 2 {
+	if len(splitVals) == 3 {
 		if !in([]string{splitVals[0]}, xValues) && !LengthHandler(splitVals[0]) {
 			return false
 		}
@@ -1877,7 +1877,7 @@ func TransformOriginHandler(value string) bool {
 			return false
 		}
 		return LengthHandler(splitVals[2])
-	} else if len(splitVals) > 1 {
+	} else if len(splitVals) == 2 {
 		if !in([]string{splitVals[0]}, xValues) && !LengthHandler(splitVals[0]) {
 			return false
 		}
